@@ -11,6 +11,9 @@ import Mathlib.Algebra.BigOperators.Group.List.Basic
 
 namespace Batchie.Predict
 
+/-- the loop count as an element of the carrier (`result / n_thetas`, `np.mean`'s divisor) -/
+instance natCastOfCount {R : Type} [NatCast R] : OfCount R := ⟨fun n => (n : R)⟩
+
 section ring
 variable {R : Type} [CommRing R]
 
